@@ -59,11 +59,11 @@ def info(prop):
                         "end topology with the same molecule name and different atom counts; distractor files match no "
                         "species (ambiguous inputs such as two coordinate files matching one end topology are excluded)"],
         "explanation": ("Bounded contract checks only, nothing deductive. classify_files: exhaustive over ordered selections "
-                        "(length <= 3) of 18 file names. sort_molecules: generated directories with 1..3 species (start .itp, "
+                        "(length <= 3) of 20 file names. sort_molecules: generated directories with 1..3 species (start .itp, "
                         "end .gro, end .itp each) plus distractors (.txt, unrelated .itp, unmatched .gro, the reference "
                         "system itself), every subset of species given explicitly, and the shipped BMIM/BF4 files; for each, "
                         "every permutation of the topology set's iteration order times every permutation of the coordinate "
-                        "set's iteration order (quick tier: for 3 species and nothing explicit all 5040 topology orders x 4 "
+                        "set's iteration order (quick tier: for 3 species and nothing explicit all 5040 topology orders x 3 "
                         "coordinate orders plus 24 coordinate orders x 24 topology orders; thorough: the full product). "
                         "main/auto_map: exhaustive over argv combinations (0..2 explicit species in every order, --auto with "
                         "every listed --exclude choice, --scale absent/given, --outfile absent/absolute/relative, three ways "
@@ -120,6 +120,8 @@ LAYOUTS = {
     "S1": {"species": "A", "seq": "AA", "distractors": ["txt", "itp", "gro"], "ref_listed": True},
     "S2": {"species": "AB", "seq": "ABBAB", "distractors": ["txt", "itp", "gro"], "ref_listed": True},
     "S3": {"species": "ABC", "seq": "AABCBC", "distractors": ["txt", "itp", "gro"], "ref_listed": False},
+    # extra family: a species of the system (W, think of the solvent one wants to --exclude) whose start topology is among
+    # the candidates but which has no end files; the complete species A and B must still get exactly their triples
     "S2W": {"species": "AB", "seq": "ABWBW", "distractors": ["txt"], "ref_listed": False, "start_only": "W"},
 }
 
@@ -187,6 +189,13 @@ def _ap(p):
     return os.path.abspath(p)
 
 
+def _strip(obj, folder):
+    """Remove the (random) scratch directory from strings nested in obj, so that evidence and signatures are stable."""
+    if not folder:
+        return obj
+    return json.loads(json.dumps(obj).replace(json.dumps(folder + os.sep)[1:-1], "").replace(json.dumps(folder)[1:-1], "<dir>"))
+
+
 # ---------------------------------------------------------------------------
 # contract of classify_files (also the stub used as callee contract in sort_molecules)
 
@@ -226,7 +235,7 @@ def classify_post(files_before, files_after, result, top_ext, coor_ext):
     return bad
 
 
-CLASSIFY_NAMES = ["a.itp", "a.ITP", "a.gro", "a.GRO", "a.txt", "README", "molecule", "run.d/a.itp", "run.itp/a",
+CLASSIFY_NAMES = ["a.itp", "a.ITP", "a.Itp", "a.gro", "a.GRO", "a.Gro", "a.txt", "README", "molecule", "run.d/a.itp", "run.itp/a",
                   "run.gro/readme.txt", "a.b.gro", "a.gro.itp", "a.itp.gro", "a.itp.bak", "/abs/x.y/z.gro", "itp.txt",
                   "gro_itp", "a.gro~"]
 
@@ -276,7 +285,7 @@ def task_classify(seed):
     secs = time.time() - t0
     for cl in ("no_exception", "returns_pair_of_sets", "topology_files_exact", "coordinate_files_exact", "argument_unchanged",
                "same_result_when_repeated"):
-        oid = f"{PROP}/classify_files/ensures.{cl}/names18.len<=3"
+        oid = f"{PROP}/classify_files/ensures.{cl}/names20.len<=3"
         if cl in fails:
             c = fails[cl]
             out.append(ob(oid, "refuted", cex=c, reason=f"files={c['files']} observed={c['observed']} expected={c['expected']}",
@@ -406,7 +415,9 @@ def run_sort(case, folder, tops_order=None, coords_order=None):
         exc = e
     bad = sort_post(result, exc, expected, explicit_names, incomplete)
     reached = tops_order is None or (counter.get("stub", 0) >= 1 and AdvSet.iterations > it0)
-    return bad, (canon(result) if exc is None else f"raises {type(exc).__name__}: {exc}"), reached
+    here = folder if folder and case["layout"] != "shipped" else (os.getcwd() if not folder else "")
+    res = canon(result) if exc is None else f"raises {type(exc).__name__}: {exc}"
+    return _strip(bad, here), _strip(res, here), reached
 
 
 SORT_CLAUSES = ("no_exception", "exact_triples", "explicit_species_not_readded", "only_system_species",
@@ -460,10 +471,9 @@ def task_sort_stubbed(layout, explicit, lo, hi, coord_mode, seed, tag):
         extra = _explicit_files(case)
         tperms = list(itertools.permutations(tnames))[lo:hi]
         cperms = list(itertools.permutations(cnames))
-        if coord_mode == "few" and len(cperms) > 4:
+        if coord_mode == "few" and len(cperms) > 3:
             n = len(cnames)
-            cperms = [tuple(cnames), tuple(reversed(cnames)), tuple(cnames[n // 2:] + cnames[:n // 2]),
-                      tuple(cnames[1:] + cnames[:1])]
+            cperms = [tuple(cnames), tuple(reversed(cnames)), tuple(cnames[n // 2:] + cnames[:n // 2])]
         elif coord_mode.startswith("sample"):
             k = int(coord_mode[6:])
             allt = list(itertools.permutations(tnames))
@@ -672,10 +682,14 @@ def task_sort_guards(seed):
         folder = sort_folder({"layout": "S1"}, root)
         from gaddlemaps import _cli
         ref, cand, known, expected, explicit_names, incomplete = sort_case_spec({"layout": "S1", "explicit": []}, folder)
-        with quiet():
-            r = _cli.sort_molecules(ref, cand, known)
+        r = exc = None
+        try:
+            with quiet():
+                r = _cli.sort_molecules(ref, cand, known)
+        except Exception as e:
+            exc = e
         wrong = {n: dict(t, top_AA=t["top_CG"], top_CG=t["top_AA"]) for n, t in expected.items()}
-        caught = bool(sort_post(r, None, wrong, explicit_names, incomplete)) and not sort_post(r, None, expected, explicit_names, incomplete)
+        caught = bool(sort_post(r, exc, wrong, explicit_names, incomplete))
         out.append(ob(f"{PROP}/sort_molecules/guard.must-fail-on-real-run", "refuted" if caught else "discharged", expect="refuted", **g))
     finally:
         shutil.rmtree(root, ignore_errors=True)
@@ -713,9 +727,6 @@ def make_spy(log):
             log.append({"call": "from_files", "coords": f_system_gro, "coords_abs": _ap(f_system_gro), "tops": list(ftops),
                         "tops_abs": [_ap(t) for t in ftops]})
             return cls(System(f_system_gro, *ftops))
-
-        def add_end_molecule(self, molecule):
-            return Real.add_end_molecule(self, molecule)
 
         def align_molecules(self, *a, **k):
             log.append({"call": "align_molecules", "args": [repr(x) for x in a], "kwargs": {kk: repr(v) for kk, v in k.items()},
@@ -770,7 +781,7 @@ def main_env(case, root):
     else:
         outfile = None
     if case["auto"]:
-        argv += ["--auto"] + [P(f) for f in layout_files(LAYOUTS[MAIN_LAYOUT])]
+        argv += ["--auto"] + [P(f) for f in (case.get("auto_order") or layout_files(LAYOUTS[MAIN_LAYOUT]))]
         if case["exclude"] is not None:
             argv += ["--exclude"] + list(case["exclude"])
     excluded = set(case["exclude"] or []) if case["auto"] else set()
@@ -833,7 +844,9 @@ def main_post(log, exc, exp, produced):
     """-> dict clause -> description of the violation."""
     bad = {}
     if exc is not None:
-        bad["no_exception"] = f"raises {type(exc).__name__}: {exc}"[:300]
+        # the run stopped early: the remaining clauses cannot be evaluated on a partial record
+        done = [e["call"] for e in log]
+        return {"no_exception": f"raises {type(exc).__name__}: {exc} (after calls {done})"[:400]}
     calls = [e["call"] for e in log]
     ff = [e for e in log if e["call"] == "from_files"]
     if calls[:1] != ["from_files"] or len(ff) != 1:
@@ -951,7 +964,7 @@ def task_main_protocol(chunk, nchunks, seed):
         for case in cases:
             bad, log, exp, argv = run_main(case, root)
             n += 1
-            spy_used += 1 if log else 0
+            spy_used += 1 if (log or "no_exception" in bad) else 0
             if sample is None:
                 sample = {"argv": [a.replace(root, "<tmp>") for a in argv],
                           "calls": [e["call"] for e in log], "expected_output": exp["out_abs"].replace(root, "<tmp>")}
@@ -974,23 +987,35 @@ def task_main_protocol(chunk, nchunks, seed):
                 out.append(ob(oid, "discharged", sample=sample, evaluations=n, nontrivial=n, secs=secs, **KW))
         out.append(ob(f"{PROP}/main/guard.recorder-reached/{tag}", "discharged" if spy_used == n and n > 0 else "refuted", kind="guard",
                       engine="smallscope", backend="runtime-contract", expect="discharged",
-                      reason=f"{n - spy_used} of {n} runs never reached the recording Manager"))
+                      reason=f"{n - spy_used} of {n} runs returned normally without reaching the recording Manager"))
         return out
     finally:
         shutil.rmtree(root, ignore_errors=True)
 
 
+def ideal_log(exp):
+    """The call record the contract describes, built from the expectation only."""
+    ends = {n: dict(e) for n, e in exp["ends"].items()}
+    tops = exp["explicit_tops_abs"] + exp["auto_tops_abs"]
+    return [{"call": "from_files", "coords": exp["coords_abs"], "coords_abs": exp["coords_abs"], "tops": list(tops), "tops_abs": list(tops)},
+            {"call": "align_molecules", "args": [], "kwargs": {}, "default_call": True, "ends": ends},
+            {"call": "calculate_exchange_maps", "args": [], "kwargs": {"scale_factor": repr(exp["scale"])}, "scale": exp["scale"],
+             "extra_args": False, "ends": ends},
+            {"call": "extrapolate_system", "path": exp["out_abs"], "path_abs": exp["out_abs"], "ends": ends}]
+
+
 def task_main_guards(seed):
-    """Must-fail: corrupted observations of a real run are rejected clause by clause."""
+    """Must-fail: corrupted observations are rejected clause by clause; a wrong expectation is refuted by a real run."""
     import copy
     root = tempfile.mkdtemp(prefix="c20_")
     g = dict(kind="guard", engine="smallscope", backend="runtime-contract")
     try:
         prepare_main_root(root)
         case = {"explicit": ["B"], "auto": True, "exclude": ["MC"], "scale": 0.3, "outfile": None, "style": "abs"}
-        bad, log, exp, argv = run_main(case, root)
+        _, _, exp = main_env(case, root)
+        log = ideal_log(exp)
         produced = {"files": [exp["out_abs"]], "natoms": exp["out_natoms"]}
-        base_ok = not bad and not main_post(log, None, exp, produced)
+        base_ok = not main_post(log, None, exp, produced)
 
         def corrupt(fn):
             lg = copy.deepcopy(log)
@@ -1010,11 +1035,17 @@ def task_main_guards(seed):
         def c_excl(lg, pr):
             lg[0]["tops_abs"].append(os.path.join(root, "work", fname("C", "top_CG")))
 
+        def c_readd(lg, pr):
+            lg[0]["tops_abs"].append(os.path.join(root, "work", fname("B", "top_CG")))
+
         def c_order(lg, pr):
             lg[0]["tops_abs"].reverse()
 
         def c_seq(lg, pr):
             lg[1], lg[2] = lg[2], lg[1]
+
+        def c_noalign(lg, pr):
+            del lg[1]
 
         def c_end(lg, pr):
             lg[1]["ends"]["MA"] = None
@@ -1025,15 +1056,29 @@ def task_main_guards(seed):
         def c_natoms(lg, pr):
             pr["natoms"] += SPECIES["C"][3]
 
+        def c_elsewhere(lg, pr):
+            pr["files"] = [os.path.join(root, "elsewhere", "mapped_sys.gro")]
+
         want = {c_scale: "scale_forwarded_default_half", c_path: "output_requested_path_or_mapped_beside_input",
                 c_cwd: "output_requested_path_or_mapped_beside_input", c_excl: "discovered_species_exactly_nonexplicit_nonexcluded",
+                c_readd: "discovered_species_exactly_nonexplicit_nonexcluded",
                 c_order: "explicit_start_topologies_first_in_given_order", c_seq: "sequence_from_files_align_maps_extrapolate",
+                c_noalign: "sequence_from_files_align_maps_extrapolate",
                 c_end: "end_molecules_attached_by_name_before_alignment", c_end2: "end_molecules_attached_by_name_before_alignment",
-                c_natoms: "output_requested_path_or_mapped_beside_input"}
+                c_natoms: "output_requested_path_or_mapped_beside_input", c_elsewhere: "output_requested_path_or_mapped_beside_input"}
         missed = [f.__name__ for f, cl in want.items() if cl not in corrupt(f)]
         caught = base_ok and not missed
-        return [ob(f"{PROP}/main/guard.must-fail", "refuted" if caught else "discharged", expect="refuted",
-                   reason=f"baseline ok={base_ok} ({bad}); corruptions not rejected: {missed}", **g)]
+        out = [ob(f"{PROP}/main/guard.must-fail", "refuted" if caught else "discharged", expect="refuted",
+                  reason=f"ideal record accepted={base_ok}; corruptions not rejected: {missed}", **g)]
+        # a deliberately wrong expectation (scale 0.31, output one directory up) evaluated on a real run must be refuted
+        run_dir, argv, exp = main_env(case, root)
+        bad, log, exp, argv = run_main(case, root)
+        wrong = dict(exp, scale=0.31, out_abs=os.path.join(root, "mapped_sys.gro"))
+        produced = {"files": clean_outputs_list(root), "natoms": exp["out_natoms"]}
+        w = main_post(log, None, wrong, produced)
+        caught = "scale_forwarded_default_half" in w and "output_requested_path_or_mapped_beside_input" in w
+        out.append(ob(f"{PROP}/main/guard.must-fail-on-real-run", "refuted" if caught else "discharged", expect="refuted", **g))
+        return out
     finally:
         shutil.rmtree(root, ignore_errors=True)
 
@@ -1159,22 +1204,24 @@ def tasks(prop, tier, seed):
           ("main/guards", task_main_guards, (seed,), 120.0)]
     # generated directories, every explicit subset, all iteration-order pairs
     for layout in ("S1", "S2", "S3", "S2W"):
-        for explicit in all_subsets(LAYOUTS[layout]["species"]):
+        # S2W (a system species with nothing but a start topology among the candidates) is an extra family: nothing explicit
+        for explicit in (all_subsets(LAYOUTS[layout]["species"]) if layout != "S2W" else [()]):
             case = {"layout": layout, "explicit": list(explicit)}
             tn, cn = case_sets(case)
             nt, nc = _fact(len(tn)), _fact(len(cn))
             fam = f"gen.{layout}.explicit[{''.join(explicit) or '-'}]"
-            if nt * nc <= 3000:
+            if nt * nc <= 1000:
                 ts.append((f"sort_molecules/{fam}", task_sort_stubbed,
-                           (layout, explicit, 0, nt, "all", seed, f"{fam}.tops{len(tn)}!xcoords{len(cn)}!"), 300.0))
+                           (layout, explicit, 0, nt, "all", seed, f"{fam}.tops{len(tn)}!xcoords{len(cn)}!"), 900.0))
             else:
-                mode = "all" if thorough else "few"
-                for a, b in _chunks(nt, 315):
+                mode = "all" if (thorough or nt * nc <= 5000) else "few"
+                used = nc if mode == "all" else 3
+                for a, b in _chunks(nt, max(1, 1000 // used)):
                     ts.append((f"sort_molecules/{fam}/tops[{a}:{b}]", task_sort_stubbed,
                                (layout, explicit, a, b, mode, seed, f"{fam}.tops[{a}:{b}]xcoords.{mode}"), 900.0))
-                if not thorough:
+                if mode == "few":
                     ts.append((f"sort_molecules/{fam}/coords-all", task_sort_stubbed,
-                               (layout, explicit, 0, 0, "sample24", seed, f"{fam}.tops.sample24xcoords{len(cn)}!"), 300.0))
+                               (layout, explicit, 0, 0, "sample24", seed, f"{fam}.tops.sample24xcoords{len(cn)}!"), 900.0))
     # shipped BMIM/BF4
     for explicit in all_subsets(["BMIM", "BF4"]):
         case = {"layout": "shipped", "explicit": list(explicit)}
@@ -1184,21 +1231,23 @@ def tasks(prop, tier, seed):
         size = 3 if nt > 6 else nt
         for a, b in _chunks(nt, size):
             ts.append((f"sort_molecules/{fam}/tops[{a}:{b}]", task_sort_stubbed,
-                       ("shipped", explicit, a, b, "all", seed, f"{fam}.tops[{a}:{b}]xcoords{len(cn)}!"), 600.0))
+                       ("shipped", explicit, a, b, "all", seed, f"{fam}.tops[{a}:{b}]xcoords{len(cn)}!"), 900.0))
     # native twins
-    ts.append(("sort_molecules/native-sets/S1S2", task_sort_native, (["S1", "S2"], 300 if thorough else 60, seed, "native-sets.S1S2.list-orderings"), 600.0))
-    ts.append(("sort_molecules/native-sets/S3", task_sort_native, (["S3"], 300 if thorough else 40, seed, "native-sets.S3.list-orderings"), 600.0))
-    hs = list(range(1, 33)) if thorough else list(range(1, 7))
-    half = len(hs) // 2
-    ts.append(("sort_molecules/hashseed/S3/a", task_sort_hashseed, ("S3", hs[:half], f"hashseed.S3[{hs[0]}..{hs[half - 1]}]"), 900.0))
-    ts.append(("sort_molecules/hashseed/S3/b", task_sort_hashseed, ("S3", hs[half:], f"hashseed.S3[{hs[half]}..{hs[-1]}]"), 900.0))
+    ts.append(("sort_molecules/native-sets/S1S2", task_sort_native, (["S1", "S2"], 1500 if thorough else 60, seed, "native-sets.S1S2.list-orderings"), 900.0))
+    ts.append(("sort_molecules/native-sets/S3", task_sort_native, (["S3"], 1500 if thorough else 40, seed, "native-sets.S3.list-orderings"), 900.0))
+    hs = list(range(1, 65)) if thorough else list(range(1, 7))
+    nh = 4 if thorough else 2
+    per = len(hs) // nh
+    for i in range(nh):
+        part = hs[i * per:(i + 1) * per]
+        ts.append((f"sort_molecules/hashseed/S3/{i}", task_sort_hashseed, ("S3", part, f"hashseed.S3[{part[0]}..{part[-1]}]"), 900.0))
     # main / auto_map
-    nch = 12
+    nch = 8
     for c in range(nch):
-        ts.append((f"main/protocol/{c:02d}", task_main_protocol, (c, nch, seed), 600.0))
+        ts.append((f"main/protocol/{c:02d}", task_main_protocol, (c, nch, seed), 900.0))
     ne = 4
     for c in range(ne):
-        ts.append((f"main/e2e/{c}", task_e2e, (c, ne, seed), 600.0))
+        ts.append((f"main/e2e/{c}", task_e2e, (c, ne, seed), 900.0))
     return ts
 
 
@@ -1225,7 +1274,17 @@ def replay(prop, cex):
         root = tempfile.mkdtemp(prefix="c20_")
         try:
             prepare_main_root(root)
-            bad, log, exp, argv = run_main(cex["case"], root)
+            case = dict(cex["case"])
+            bad, log, exp, argv = run_main(case, root)
+            if not bad and case.get("auto"):
+                # the scratch directory name differs from the checker's run, so the real sets may iterate differently:
+                # search natively over listings of the candidate files
+                for order in list_orderings(list(layout_files(LAYOUTS[MAIN_LAYOUT])), 80, 3):
+                    case = dict(cex["case"], auto_order=list(order))
+                    bad, log, exp, argv = run_main(case, root)
+                    if bad:
+                        break
+            cex = dict(cex, case=case)
             return {"reproduced": bool(bad), "violated": {k: v.replace(root, "<tmp>") for k, v in bad.items()},
                     "observed": [{k: v for k, v in e.items() if k != "ends"} for e in log],
                     "expected": {k: v for k, v in exp.items() if k != "ends"}, "inputs": cex,
